@@ -2,12 +2,12 @@
 # Usage: seed_eval.sh <dir-with-patch.diff> <Cnn> [more checks...]
 # Applies a seeded breaking change to /repo, runs the named checks, and always reverts.
 D=$1; shift
-R=/tmp/evalrepo; git -C $R checkout -q --detach $(git -C /repo rev-parse HEAD) 2>/dev/null; export VERIF_REPO=$R VERIF_DIR=/tmp/evalverif; mkdir -p $VERIF_DIR; cp /verif/known_findings.json $VERIF_DIR/; cd $R || exit 2
+R=${EVALREPO:-/tmp/evalrepo}; [ -d $R ] || git -C /repo worktree add --detach $R HEAD -q; git -C $R checkout -q --detach $(git -C /repo rev-parse HEAD) 2>/dev/null; export VERIF_REPO=$R VERIF_DIR=${EVALREPO:-/tmp/evalrepo}-verif; mkdir -p $VERIF_DIR; cp /verif/known_findings.json $VERIF_DIR/; cd $R || exit 2
 git checkout -q -- .
 git apply "$D/patch.diff" || { echo "PATCH DOES NOT APPLY"; exit 3; }
 for c in "$@"; do
-  /verif/bin/gnoverif check $c > /tmp/seed_eval_$c.log 2>&1; rc=$?
-  echo "== $c exit=$rc"; grep -v '^VIOLATION' /tmp/seed_eval_$c.log | grep "\[$c\]" | cut -c1-400 | head -8
+  ${GNOVERIF:-/verif/bin/gnoverif} check $c > $VERIF_DIR/seed_eval_$c.log 2>&1; rc=$?
+  echo "== $c exit=$rc"; grep -v '^VIOLATION' $VERIF_DIR/seed_eval_$c.log | grep "\[$c\]" | cut -c1-400 | head -8
 done
 git checkout -- . ; git status --short | grep -v '^??'
 # restore evidence files that the run overwrote
